@@ -1,14 +1,17 @@
 package main
 
 import (
+	"bytes"
 	"context"
 	"sort"
 	"sync"
+	"sync/atomic"
 	"time"
 
 	"github.com/vechain/thor/v2/block"
 	"github.com/vechain/thor/v2/p2p"
 	"github.com/vechain/thor/v2/p2p/discover"
+	"github.com/vechain/thor/v2/thor"
 
 	"verifharness/internal/kvrec"
 	"verifharness/internal/pipe"
@@ -32,7 +35,9 @@ type syncResult struct {
 	Converged bool   `json:"converged"`
 	Synced    bool   `json:"syncedSignalled"`
 	Timeout   bool   `json:"timeout"`
-	Stalled   bool   `json:"stalled"` // connected to a peer with a preferred head for 20 s without adopting it
+	Stalled   bool   `json:"stalled"` // connected to a peer with a preferred head, no request and no import for stallPolls polls
+	IdlePolls int    `json:"idlePolls"`
+	Requests  int64  `json:"messagesOnTheWire"`
 	ValidBest bool   `json:"validBest"`
 	StoreOK   bool   `json:"storeOK"`
 	Imported  int    `json:"imported"`
@@ -138,7 +143,22 @@ func (e *env) runSyncPairs(n int, deep bool) {
 		r.StoreOK = !holes && p.local.kv.Digest() == want
 		r.ValidBest = best == wantBest
 		out = append(out, *r)
+		lh, rh := sc.local[sc.H].Header(), sc.remote[sc.R].Header()
+		ordL, ordR := 0, 0
+		if c := bytes.Compare(lh.ID().Bytes(), rh.ID().Bytes()); c < 0 {
+			ordR = 1
+		} else if c > 0 {
+			ordL = 1
+		}
+		where := "other"
+		if best == lh.ID() {
+			where = "l"
+		} else if best == rh.ID() {
+			where = "r"
+		}
 		e.emit(trace.Ev{"e": "SyncEnd", "case": p.label, "prefers": r.Prefers, "converged": r.Converged, "stalled": r.Stalled,
+			"lhead": trace.Ev{"score": lh.TotalScore(), "ord": ordL}, "rhead": trace.Ev{"score": rh.TotalScore(), "ord": ordR},
+			"best": where, "timeout": r.Timeout, "imported": r.Imported, "remoteOnly": sc.R - sc.A,
 			"tie": sc.remote[sc.R].Header().TotalScore() == sc.local[sc.H].Header().TotalScore(),
 			"H":   sc.H, "R": sc.R, "A": sc.A,
 			"validBest": r.ValidBest, "storeOK": r.StoreOK, "hostile": p.hostile.kind, "dropped": r.Dropped})
@@ -155,6 +175,9 @@ func (e *env) runPair(i int, p *pair) {
 	r := &p.res
 	r.Label, r.Hostile = p.label, p.hostile.kind
 	le, re := pipe.New()
+	var acts atomic.Int64 // messages that crossed the pipe, either way: the progress signal of the stall rule
+	le.Tap = func(uint64, []byte) { acts.Add(1) }
+	re.Tap = func(uint64, []byte) { acts.Add(1) }
 	lc := p.local.comm
 	lc.Start()
 	localServe := make(chan error, 1)
@@ -186,9 +209,13 @@ func (e *env) runPair(i int, p *pair) {
 
 	target := sc.remote[sc.R].Header().ID()
 	prefers := sc.remote[sc.R].Header().BetterThan(sc.local[sc.H].Header())
-	deadline := time.Now().Add(60 * time.Second)
-	const stallBound = 20 * time.Second
-	var handshake time.Time
+	deadline := time.Now().Add(180 * time.Second) // absolute cap: harness trouble (exit 3 via "timeout"), never a verdict
+	// stall rule: no message on the connection and no change of the local best for stallPolls consecutive polls of this
+	// loop (each >= 50 ms, so at least six 2 s ticks of the sync timer) while the peer is in the peer set and still offers
+	// a head the fork choice prefers. A slow but progressing download keeps resetting the count.
+	const stallPolls = 260
+	idlePolls, lastActs, lastBest := 0, int64(-1), thor.Bytes32{}
+	handshake := false
 	settle := time.Now().Add(5 * time.Second)
 	faulty := func() int {
 		flog.mu.Lock()
@@ -226,12 +253,19 @@ loop:
 			break loop
 		case <-time.After(50 * time.Millisecond):
 		}
-		if handshake.IsZero() && lc.PeerCount() > 0 {
-			handshake = time.Now() // the peer is in the peer set: every sync timer tick (2 s) may select it
+		if !handshake && lc.PeerCount() > 0 {
+			handshake = true // the peer is in the peer set: every sync timer tick (2 s) may select it
 		}
-		if p.hostile.kind == "" && prefers && !handshake.IsZero() && time.Since(handshake) > stallBound {
-			// ten timer ticks with a connected peer whose head the fork choice prefers, and the node is still not on it
+		if a, b := acts.Load(), p.local.best().ID(); a != lastActs || b != lastBest || !handshake {
+			idlePolls, lastActs, lastBest = 0, a, b
+		} else {
+			idlePolls++
+		}
+		if p.hostile.kind == "" && prefers && handshake && idlePolls >= stallPolls && lc.PeerCount() > 0 &&
+			p.remote.best().BetterThan(p.local.best()) {
+			// six timer ticks of silence with a connected peer whose head the fork choice prefers
 			r.Stalled = true
+			r.IdlePolls = idlePolls
 			break loop
 		}
 		if time.Now().After(deadline) {
@@ -240,13 +274,18 @@ loop:
 		}
 	}
 	cancel()
-	<-syncDone
+	select {
+	case <-syncDone:
+	case <-time.After(90 * time.Second):
+		fail("Communicator.Sync of pair %s did not return after its context was cancelled", p.label)
+	}
 	le.Close()
 	<-remoteDone
 	if !r.Dropped {
 		<-localServe
 	}
 	r.Faulty = faulty()
+	r.Requests = acts.Load()
 	flog.mu.Lock()
 	r.Rounds = len(flog.evs)
 	flog.mu.Unlock()
